@@ -27,7 +27,7 @@ def grids(tier):
     g = {
         "gauss": [(100, 20), (5000, 50), (10, 3), (150, 200)],
         "uniform": [(12, 72), (500, 600), (0, 10), (12.7, 72.9)],
-        "schulz_zimm": [(1500, 1000), (1500, 1400), (5000, 4500), (30, 20), (12, 8), (400, 200)],      # (400, 200): z = Mn / (Mw - Mn) is exactly 1
+        "schulz_zimm": [(12, 8), (1500, 1000), (1500, 1400), (5000, 4500), (30, 20), (400, 200)],      # lightest first: nothing of a later law may be sized by an earlier one;      # (400, 200): z = Mn / (Mw - Mn) is exactly 1
         "log_normal": [(50, 1.1), (800, 1.5), (800, 1.1), (20, 2.0)],
         "poisson": [(65,), (3,), (400,)],
         "flory_schulz": [(0.1,), (0.5,), (0.02,)],
